@@ -3,10 +3,16 @@
 use super::MetricItemRetriever;
 use crate::{utils::AsAny, Error, Result};
 use enum_map::Enum;
+#[cfg(not(sentinel_verif))]
 use lazy_static::lazy_static;
+#[cfg(sentinel_verif)]
+use sentinel_verif_rt::lazy_static;
 use std::any::Any;
 use std::fmt;
+#[cfg(not(sentinel_verif))]
 use std::sync::Arc;
+#[cfg(sentinel_verif)]
+use sentinel_verif_rt::sync::Arc;
 
 pub type TimePredicate = dyn Fn(u64) -> bool;
 
